@@ -5,7 +5,7 @@
 use crate::for_each_scheme;
 use crate::rt::Ctx;
 use crate::scen::*;
-use crate::schemes::{range, Scheme};
+use crate::schemes::{range, Cfg, Kind, Scheme, Shape};
 use ark_poly::Polynomial;
 use rand_chacha::ChaCha20Rng;
 use rand_core::{RngCore, SeedableRng};
@@ -17,16 +17,53 @@ fn dig<T: ark_serialize::CanonicalSerialize>(x: &T) -> String {
 }
 
 /// One complete deterministic execution; every random choice derives from `seed`.
-fn workload<S: Scheme>(seed: [u8; 32], thorough: bool) -> BTreeMap<String, String> {
+/// A configuration whose polynomials have well over a thousand coefficients: size thresholds in parallel
+/// code paths (blocked conversions, chunked sums) are far above what the small scenarios reach.
+fn large_cfg<S: Scheme>(rng: &mut ChaCha20Rng, thorough: bool) -> Cfg {
+    match S::KIND {
+        Kind::Univariate => {
+            let d = match rng.next_u32() % 4 {
+                0 => [1023usize, 1024, 1025, 2047, 2048][(rng.next_u32() % 5) as usize],
+                _ => range(rng, 1023, if thorough { 4200 } else { 2100 }),
+            };
+            let enforced = if S::BOUNDS && rng.next_u32() % 2 == 0 { Some(vec![d]) } else { None };
+            Cfg { max_degree: d, num_vars: None, supported_degree: d, supported_hiding: 1, enforced }
+        }
+        Kind::Multivariate => Cfg { max_degree: 11, num_vars: Some(4), supported_degree: 11, supported_hiding: 1, enforced: None },
+        Kind::Multilinear => Cfg { max_degree: 1, num_vars: Some(if rng.next_u32() % 2 == 0 { 10 } else { 12 }), supported_degree: 1, supported_hiding: 1, enforced: None },
+    }
+}
+
+fn large_tx<S: Scheme>(rng: &mut ChaCha20Rng, thorough: bool) -> Result<Tx<S>, TxErr> {
+    let cfg = large_cfg::<S>(rng, thorough);
+    let w = make_world::<S>(&cfg, rng).map_err(|(st, o)| TxErr::Refused(st, o, cfg.json()))?;
+    let top = S::max_poly_degree(&cfg);
+    let mut specs = Vec::new();
+    for (i, label) in ["big", "other"].iter().enumerate() {
+        let bound = if S::BOUNDS && S::NAME == "ipa" && rng.next_u32() % 2 == 0 { Some(top) } else { cfg.enforced.as_ref().and_then(|e| if rng.next_u32() % 2 == 0 { Some(e[0]) } else { None }) };
+        let hiding = if S::HIDING && rng.next_u32() % 2 == 0 { Some(1) } else { None };
+        let deg = if i == 0 { top } else { range(rng, top / 2, top) };
+        specs.push(Spec { label: label.to_string(), shape: if i == 0 { Shape::Full } else { Shape::Random }, deg, bound, hiding });
+    }
+    let polys = make_polys::<S>(&cfg, &specs, rng);
+    let commit_seed = rng.next_u64();
+    let c = commit::<S>(&w.ck, &polys, commit_seed).map_err(|o| TxErr::Refused("commit".into(), o, cfg.json()))?;
+    Ok(Tx { w, specs, polys, c, pre: vec![7u8; 5], commit_seed })
+}
+
+fn workload<S: Scheme>(seed: [u8; 32], thorough: bool, large: bool) -> BTreeMap<String, String> {
     let mut out = BTreeMap::new();
     let mut rng = ChaCha20Rng::from_seed(seed);
-    let tx = match gen_tx::<S>(&mut rng, thorough, 4) {
+    let tx = match if large { large_tx::<S>(&mut rng, thorough) } else { gen_tx::<S>(&mut rng, thorough, 4) } {
         Ok(t) => t,
         Err(TxErr::Refused(stage, o, _)) => {
             out.insert("pipeline".into(), format!("refused at {}: {}", stage, o.tag()));
             return out;
         }
     };
+    if large {
+        out.insert("size/coefficients-of-largest-polynomial".into(), format!("{}", tx.polys.iter().map(|p| p.degree() + 1).max().unwrap_or(0)));
+    }
     out.insert("setup/universal-params".into(), dig(&tx.w.pp));
     out.insert("trim/committer-key".into(), dig(&tx.w.ck));
     out.insert("trim/verifier-key".into(), dig(&tx.w.vk));
@@ -71,7 +108,7 @@ fn in_pool<T: Send>(threads: usize, f: impl FnOnce() -> T + Send) -> T {
     rayon::ThreadPoolBuilder::new().num_threads(threads).build().expect("pool").install(f)
 }
 
-fn case<S: Scheme>(ctx: &mut Ctx, idx: u64, rng: &mut ChaCha20Rng) {
+fn case<S: Scheme>(ctx: &mut Ctx, idx: u64, rng: &mut ChaCha20Rng, large: bool) {
     let mut seed = [0u8; 32];
     rng.fill_bytes(&mut seed);
     let thorough = ctx.is_thorough();
@@ -79,15 +116,15 @@ fn case<S: Scheme>(ctx: &mut Ctx, idx: u64, rng: &mut ChaCha20Rng) {
     let mut runs: Vec<(String, BTreeMap<String, String>)> = Vec::new();
     #[cfg(feature = "par")]
     {
-        let pools: &[usize] = if thorough { &[1, 2, 3, 5, 6, 7, 8, 12, 16] } else { &[1, 2, 3, 6, 8, 16] };
+        let pools: &[usize] = if large { &[1, 2, 3, 5, 7, 16] } else if thorough { &[1, 2, 3, 5, 6, 7, 8, 12, 16] } else { &[1, 2, 3, 6, 8, 16] };
         for &t in pools {
-            runs.push((format!("pool-{}", t), in_pool(t, || workload::<S>(seed, thorough))));
+            runs.push((format!("pool-{}", t), in_pool(t, || workload::<S>(seed, thorough, large))));
         }
-        let reps = if thorough { 8 } else { 3 };
+        let reps = if large { 1 } else if thorough { 8 } else { 3 };
         for r in 0..reps {
-            runs.push((format!("pool-16-repeat-{}", r), in_pool(16, || workload::<S>(seed, thorough))));
+            runs.push((format!("pool-16-repeat-{}", r), in_pool(16, || workload::<S>(seed, thorough, large))));
         }
-        if thorough && idx % 4 == 0 {
+        if thorough && !large && idx % 4 == 0 {
             // oversubscribed pool while other threads keep the cores busy
             let stop = std::sync::Arc::new(std::sync::atomic::AtomicBool::new(false));
             let hogs: Vec<_> = (0..8)
@@ -102,7 +139,7 @@ fn case<S: Scheme>(ctx: &mut Ctx, idx: u64, rng: &mut ChaCha20Rng) {
                     })
                 })
                 .collect();
-            runs.push(("pool-64-oversubscribed".into(), in_pool(64, || workload::<S>(seed, thorough))));
+            runs.push(("pool-64-oversubscribed".into(), in_pool(64, || workload::<S>(seed, thorough, large))));
             stop.store(true, std::sync::atomic::Ordering::Relaxed);
             for h in hogs {
                 let _ = h.join();
@@ -111,8 +148,8 @@ fn case<S: Scheme>(ctx: &mut Ctx, idx: u64, rng: &mut ChaCha20Rng) {
     }
     #[cfg(not(feature = "par"))]
     {
-        runs.push(("no-parallel-feature".into(), workload::<S>(seed, thorough)));
-        runs.push(("no-parallel-feature-repeat".into(), workload::<S>(seed, thorough)));
+        runs.push(("no-parallel-feature".into(), workload::<S>(seed, thorough, large)));
+        runs.push(("no-parallel-feature-repeat".into(), workload::<S>(seed, thorough, large)));
     }
     ctx.count("executions", runs.len() as u64);
     let base = runs[0].1.clone();
@@ -120,7 +157,7 @@ fn case<S: Scheme>(ctx: &mut Ctx, idx: u64, rng: &mut ChaCha20Rng) {
     // record reference digests for the cross-build comparison made by the driver
     let mut note = serde_json::Map::new();
     for (k, v) in &base {
-        note.insert(format!("{}|{}|{}", S::NAME, idx, k), json!(v));
+        note.insert(format!("{}{}|{}|{}", S::NAME, if large { "/large" } else { "" }, idx, k), json!(v));
     }
     ctx.merge_note_map("digests", note);
     let mut mismatches: Vec<serde_json::Value> = Vec::new();
@@ -146,6 +183,16 @@ fn case<S: Scheme>(ctx: &mut Ctx, idx: u64, rng: &mut ChaCha20Rng) {
 pub fn run(ctx: &mut Ctx) {
     for_each_scheme!(ctx, S, {
         let n = ctx.n(24, 300) / <S as Scheme>::WEIGHT.max(1);
-        ctx.run_cases(<S as Scheme>::NAME, n.max(3), |ctx, i, rng| case::<S>(ctx, i, rng));
+        ctx.run_cases(<S as Scheme>::NAME, n.max(3), |ctx, i, rng| case::<S>(ctx, i, rng, false));
     });
+    // polynomials with more than a thousand coefficients (one curve per scheme is enough here)
+    let nl = if ctx.is_thorough() { 12 } else { 4 };
+    ctx.run_cases("marlin/large", nl, |ctx, i, rng| case::<crate::schemes::MarlinS<crate::schemes::E381>>(ctx, i, rng, true));
+    ctx.run_cases("sonic/large", nl, |ctx, i, rng| case::<crate::schemes::SonicS<crate::schemes::E381>>(ctx, i, rng, true));
+    ctx.run_cases("ipa/large", nl, |ctx, i, rng| case::<crate::schemes::IpaS>(ctx, i, rng, true));
+    ctx.run_cases("pst13/large", nl / 2, |ctx, i, rng| case::<crate::schemes::Pst13S<crate::schemes::E381>>(ctx, i, rng, true));
+    ctx.run_cases("hyrax/large", nl, |ctx, i, rng| case::<crate::schemes::HyraxS>(ctx, i, rng, true));
+    ctx.run_cases("ligero-uni/large", nl, |ctx, i, rng| case::<crate::schemes::UniLigeroS>(ctx, i, rng, true));
+    ctx.run_cases("ligero-ml/large", nl, |ctx, i, rng| case::<crate::schemes::MlLigeroS>(ctx, i, rng, true));
+    ctx.run_cases("brakedown/large", nl, |ctx, i, rng| case::<crate::schemes::BrakedownS>(ctx, i, rng, true));
 }
